@@ -374,7 +374,9 @@ fn real_inner(slots: &mut [Option<LeanString>], st: &Step) -> Ret {
         Op::New => set!(LeanString::new()),
         Op::FromStr(s) => set!(LeanString::from(s.as_str())),
         Op::FromString(s) => {
-            let owned = s.clone();
+            // an owned String usually has spare capacity; vary it deterministically
+            let mut owned = String::with_capacity(s.len() + [0usize, 1, 7, 40][s.len() % 4]);
+            owned.push_str(s);
             set!(LeanString::from(owned))
         }
         Op::FromRefString(s) => set!(LeanString::from(s)),
@@ -384,7 +386,9 @@ fn real_inner(slots: &mut [Option<LeanString>], st: &Step) -> Ret {
         }
         Op::FromCowBorrowed(s) => set!(LeanString::from(Cow::Borrowed(s.as_str()))),
         Op::FromCowOwned(s) => {
-            let c: Cow<'_, str> = Cow::Owned(s.clone());
+            let mut owned = String::with_capacity(s.len() + [40usize, 0, 1, 7][s.len() % 4]);
+            owned.push_str(s);
+            let c: Cow<'_, str> = Cow::Owned(owned);
             set!(LeanString::from(c))
         }
         Op::FromChar(c) => set!(LeanString::from(*c)),
@@ -420,7 +424,8 @@ fn real_inner(slots: &mut [Option<LeanString>], st: &Step) -> Ret {
                 ToLeanSrc::Bool(b) => tl(b, *try_),
                 ToLeanSrc::Char(c) => tl(c, *try_),
                 ToLeanSrc::Str(s) => {
-                    let owned: String = s.clone();
+                    let mut owned = String::with_capacity(s.len() + [7usize, 40, 0, 1][s.len() % 4]);
+                    owned.push_str(s);
                     tl(&owned, *try_)
                 }
                 ToLeanSrc::Slot(src) => match slots[*src].as_ref() {
